@@ -44,10 +44,18 @@ EXTRA = {
         "the InputError text must be those of the lenient model run of the same block",
         "messages accumulate across blocks in the real fixer (never cleared); the statement does not forbid it and "
         "no verdict depends on it (theorem isolation)",
-        "short ROWS (the fixer's fix_missing_rows_in_column_data) exist only in row-wise tables. A short LINE of a "
-        "transposed table is generated too and judged by the documented behaviour: the reader pads it with empty cells "
-        "before any fixer is involved — no error is counted; the empty cell is NaN in a numeric column, the text 'None' "
-        "in a text column, and an illegal cell (replacement + one warning, named 'None') in an onoff / datetime column",
+        "value rows cut short in a TRANSPOSED table (a line shorter than the others) are judged by the statement itself "
+        "(strict: refused, naming the short value rows; lenient: counted, cut-off cells hold '' / NaN / NaT / the "
+        "replacement). The present reader pads such lines silently with empty cells: OPEN known finding F5, key "
+        "`transposed_short_line` (a witness is replayed every run; Props/C13.lean proves the negation witness on the "
+        "model and names the row-wise theorems `…_partial`)",
+        "a custom fixer's value fits its column: in particular a timestamp replacement carries the column's UTC offset "
+        "(a tz-naive custom timestamp in a column of `…Z` timestamps makes the table a located refusal: theorem "
+        "lenient_table_succeeds states the hypothesis); such cases are generated and left to the model comparison",
+        "a fixer passed as a CLASS is a plain class (`type(fixer) is type` in make_fixer): a class with another metaclass "
+        "(abc.ABCMeta) is taken for an instance and escapes as TypeError — outside the quantifier's 'class vs instance'",
+        "the fixer's counters are read through the public `fixes`; the errors / warnings split is compared only when "
+        "observable",
         "a custom fixer returns a value of type vtype, as fix_illegal_cell_value's docstring requires; foreign-typed "
         "replacements are coerced by numpy (None→False in an onoff column, a str turns a numeric column into text in "
         "jsondata) — observed, outside the statement",
@@ -66,9 +74,9 @@ EXTRA = {
     ],
     "explanation": "Props/C13.lean: finish_closed (closed form of duplicate-name repair, short-row repair, column "
                    "parsing and report(): values as a function of layout + replacement values, fixer grown by exactly "
-                   "the defects), counts, msgs_one_per_fix, msgs_name_defects, short_rows_counted, lenient_values, "
-                   "lenient_shape, lenient_cell, filler_values, names_unique, names_kept, strict_eq_lenient, "
-                   "strict_fails_iff_defect, strict_names_all, runBlocks_eq_runV, isolation — for all layouts, all "
+                   "the defects), counts, msgs_one_per_fix, msgs_name_defects_partial, short_rows_counted_partial, lenient_values, "
+                   "lenient_shape, lenient_cell, filler_values_partial, names_unique, names_kept, strict_eq_lenient, "
+                   "strict_fails_iff_defect, strict_failure_is_report_or_typing, strict_failure_messages, lenient_table_succeeds, runBlocks_eq_runV, isolation — for all layouts, all "
                    "ext, all fixer configurations. Illegal-cell messages are proved by count and vtype, not by the "
                    "offending text (the text is checked by the oracle).",
     "trusted_base": [
@@ -207,6 +215,26 @@ def issue_text(issue):
     return str(getattr(issue, "issue", issue))
 
 
+def counters(fx):
+    """the fixer's counters through its PUBLIC surface: `fixes`; the split into errors / warnings is private state and
+    only reported when it happens to be observable (never required)"""
+    return {"fixes": fx.fixes, "errors": getattr(fx, "_errors", None), "warnings": getattr(fx, "_warnings", None)}
+
+
+def canon_fixer(fx):
+    return dict(counters(fx), msgs=rc.canon_msgs(fx.messages))
+
+
+def same_fixer(impl_fx, model_fx):
+    """impl: canon_fixer / snapshot dict; model: {"errors", "warnings", "msgs"}"""
+    if impl_fx["fixes"] != model_fx["errors"] + model_fx["warnings"]:
+        return False
+    if impl_fx.get("errors") is not None and impl_fx.get("warnings") is not None and \
+            (impl_fx["errors"], impl_fx["warnings"]) != (model_fx["errors"], model_fx["warnings"]):
+        return False
+    return "msgs" not in impl_fx or impl_fx["msgs"] == model_fx["msgs"]
+
+
 def ascii_stream():
     """what a console limited to ASCII looks like to print(): encoding errors are raised, not replaced"""
     return io.TextIOWrapper(io.BytesIO(), encoding="ascii", errors="strict", write_through=True)
@@ -243,8 +271,7 @@ def run_impl(rows=None, text=None, fixer_kind="default", tracker="raising", to="
                     snaps.append(None)
                 else:
                     prev = snaps[-1]["n_msgs"] if snaps and snaps[-1] else 0
-                    snaps.append({"errors": fx._errors, "warnings": fx._warnings, "n_msgs": len(fx.messages),
-                                  "new_msgs": list(fx.messages[prev:])})
+                    snaps.append(dict(counters(fx), n_msgs=len(fx.messages), new_msgs=list(fx.messages[prev:])))
     except InputError as e:
         issue = e.args[0]
         ending = {"InputError": getattr(getattr(issue, "load_location", None), "row", None)}
@@ -259,7 +286,7 @@ def run_impl(rows=None, text=None, fixer_kind="default", tracker="raising", to="
         issue_texts = [err_text] if err_text is not None else []
     fx = getter()
     return {"blocks": blocks, "issues": issues, "ending": ending, "snaps": snaps, "issue_texts": issue_texts,
-            "fixer": None if fx is None else rc.canon_fixer(fx)}
+            "fixer": None if fx is None else canon_fixer(fx)}
 
 
 # --------------------------------------------------------------------------- generator
@@ -288,6 +315,18 @@ def gen_table(rng, idx, native=False, allow_transposed=True, n_row=None, transpo
             return v
         return rng.choice(LEGAL[k])
     data = [[cell(k, j) for j, k in enumerate(kinds)] for _ in range(n_row)]
+    offset_cols = []
+    if not native:
+        # datetime columns whose timestamps all carry ONE UTC offset (pandas keeps them as a tz-aware column)
+        for j, k in enumerate(kinds):
+            if k == "datetime" and n_row and rng.random() < 0.2:
+                spell = rng.choice([["2020-01-02T00:00:00Z", "2021-12-31 23:59:59+00:00", "2020-06-01T12:00:00Z", "-", "nan"],
+                                    ["2020-01-02T00:00:00+01:00", "2020-06-01 12:00:00+01:00", "-"],
+                                    ["2020-01-02T00:00:00-03:30", "2020-06-01 12:00:00-03:30"]])
+                for r in data:
+                    r[j] = rng.choice(spell)
+                if any(str(r[j]).strip() not in ("-", "nan") for r in data):
+                    offset_cols.append(j)
     if n_row >= 60:
         # long tables: most numeric columns of real files hold plain numbers only, in one spelling style
         for j, k in enumerate(kinds):
@@ -295,7 +334,8 @@ def gen_table(rng, idx, native=False, allow_transposed=True, n_row=None, transpo
                 plain = rng.choice([["0", "1", "-1", "1.5", "2.25", "100"], ["1", "2", "3"], ["0.5", "1e3", "-2.75"]])
                 for r in data:
                     r[j] = rng.choice(plain)
-    return {"name": f"t{idx}", "transposed": transposed, "kinds": kinds, "names": names, "units": units, "data": data}
+    return {"name": f"t{idx}", "transposed": transposed, "kinds": kinds, "names": names, "units": units, "data": data,
+            "offset_cols": offset_cols}
 
 
 def inject(rng, tab, native=False, p_defect=0.75, style=None):
@@ -450,19 +490,30 @@ def same_col(a, b):
 
 
 def block_entries(text):
-    """the message entries of ONE block out of a strict failure text, wording-agnostic: the first line is the
-    summary, every further line is one entry (generated cells hold no newline). `messages` is never cleared, so
-    entries of earlier blocks come first; the block's own are the last N, N = the count the summary line states"""
+    """candidate lists of the message entries of ONE block out of a strict failure text, wording-agnostic: the first
+    line is the summary, every further line is one entry (generated cells hold no newline). `messages` is never
+    cleared, so entries of earlier blocks come first; the block's own are the last N, N = the count the summary line
+    states — every free-standing integer of the summary line is tried as N (a reworded summary may carry other
+    numbers); without any, all entries. Returns None when there is no entry line at all."""
     import re as _re
     lines = text.split("\n")
     if len(lines) < 2:
         return None
-    m = _re.search(r"(?<![\w.])(\d+)(?![\w.])", lines[0])
     entries = [l for l in lines[1:] if l.strip()]
-    if m:
+    cands = []
+    for m in _re.finditer(r"(?<![\w.])(\d+)(?![\w.])", lines[0]):
         n = int(m.group(1))
-        return entries[-n:] if n else []
-    return entries
+        if 0 < n <= len(entries) and entries[-n:] not in cands:
+            cands.append(entries[-n:])
+    return cands or [entries]
+
+
+def names_defects(cands, tab, d, out, case, what="strict failure message"):
+    """some candidate reading of the message names every defect of the block (and nothing else)"""
+    for entries in cands:
+        if expect_message_names_defects(entries, tab, d, Outcome(), case, what):
+            return True
+    return expect_message_names_defects(cands[0], tab, d, out, case, what)
 
 
 def _has_number(entry, n):
@@ -565,8 +616,7 @@ def check_lenient_table(t, base, tab, d, rep, fx, out, case):
             got = col["v"][i]
             cut = i in d["short"] and j >= d["short"][i]
             if (i, j) in pad:
-                want = {"text": "None", "num": "nan"}.get(k, rep.get(k))
-                what, key = "an empty cell padded into a short transposed line is not read as documented", "padded_line"
+                continue                                   # judged by judge_transposed_short
             elif cut:
                 want = {"text": "NaN", "num": "nan", "datetime": "NaT"}.get(k, rep["onoff"])
                 what, key = "a cut-off cell does not hold the missing-value filler", "filler"
@@ -584,13 +634,9 @@ def check_lenient_table(t, base, tab, d, rep, fx, out, case):
             out.fail("column kind changed by the repair", dict(case, column=j), col["k"], bcol["k"], key="kind")
             return False
     if fx is not None:
-        lo = len(ill) + len(d["dups"]) + len(d["short"]) + len(padded_illegal(tab, d))
-        hi = lo + sum(n_col - c for c in d["short"].values())
-        if d.get("tshort") and fx["errors"] != len(d["dups"]):
-            out.fail("a short line of a transposed table was counted as an error (documented: padded, not counted)", case,
-                     fx, len(d["dups"]), key="padded_line:counted")
-            return False
-        fixes = fx["errors"] + fx["warnings"]
+        lo = len(ill) + len(d["dups"]) + len(d["short"])
+        hi = lo + sum(n_col - c for c in d["short"].values()) + 2 * len(pad)
+        fixes = fx["fixes"]
         if not (lo <= fixes <= hi):
             out.fail("fixer counters do not equal #illegal + #duplicates + (>= 1 per short row)", case,
                      fx, {"at_least": lo, "at_most": hi}, key="counts")
@@ -787,9 +833,23 @@ def judge_stream(sp, out, model_ok, ops, pend):
         ok_case = True
         prev_msgs = 0
         stopped = False
+        dirty = False
         for k, (t, d, st) in enumerate(zip(tabs, defs, starts)):
             if stopped:
                 break
+            if d.get("tshort") or offset_clash(t, d, mk):
+                # judged on its own terms; the general per-table oracle below does not apply to this table
+                if d.get("tshort"):
+                    judge_transposed_short(out, dict(case, table=k), t, d, st, impl, delivered, strict, rep)
+                else:
+                    out.count("custom replacement without the column's UTC offset: located refusal or table accepted")
+                if st in delivered:
+                    prev_msgs = (impl["snaps"][impl["blocks"].index(delivered[st])] or {"n_msgs": prev_msgs})["n_msgs"]
+                else:
+                    dirty = True            # its messages stay in the shared fixer: the next block's slice holds them too
+                    if tracker == "raising" and st in impl["issues"]:
+                        stopped = True
+                continue
             if strict and has_def[k]:
                 # must fail, located at this table, naming every defect
                 if st in delivered:
@@ -809,7 +869,7 @@ def judge_stream(sp, out, model_ok, ops, pend):
                              txt[:300], "a summary line followed by one entry per defect", key="strict_not_report")
                     ok_case = False
                     break
-                if not expect_message_names_defects(entries, t, d, out, dict(case, table=k)):
+                if not names_defects(entries, t, d, out, dict(case, table=k)):
                     ok_case = False
                     break
                 if tracker == "raising":
@@ -832,15 +892,16 @@ def judge_stream(sp, out, model_ok, ops, pend):
             fxs = None
             if snap is not None:
                 # (a strict fixer keeps the messages of failed blocks: the delta is only meaningful for lenient ones)
-                fxs = dict(snap, n_msgs_delta=None if strict else snap["n_msgs"] - prev_msgs)
+                fxs = dict(snap, n_msgs_delta=None if (strict or dirty) else snap["n_msgs"] - prev_msgs)
                 prev_msgs = snap["n_msgs"]
             if not check_lenient_table(tv, bases[k], t, d, rep, fxs, out, dict(case, table=k)):
                 ok_case = False
                 break
-            if snap is not None and not strict and not expect_message_names_defects(
+            if snap is not None and not strict and not dirty and not expect_message_names_defects(
                     snap["new_msgs"], t, d, out, dict(case, table=k), what="the fixer's message log of a lenient read"):
                 ok_case = False
                 break
+            dirty = False
             if not has_def[k] and not d.get("tshort") and tv != bases[k]:
                 out.fail("a clean table in a stream reads differently from the same table read alone", dict(case, table=k),
                          tv, bases[k], key="isolation")
@@ -848,7 +909,8 @@ def judge_stream(sp, out, model_ok, ops, pend):
                 break
         if not ok_case:
             return
-        if not strict and (impl["issues"] or impl["ending"] != "exhausted"):
+        if not strict and (impl["issues"] or impl["ending"] != "exhausted") and \
+                not any(offset_clash(t, d, mk) for t, d in zip(tabs, defs)):
             out.fail("a lenient read reported an error for repairable defects", case,
                      {"issues": impl["issues"], "ending": impl["ending"]}, None, key="lenient_failed")
             return
@@ -865,7 +927,7 @@ def judge_stream(sp, out, model_ok, ops, pend):
             else:
                 ops.append({"op": "parse_blocks_fx", "rows": grid_to_json(rows), "to": "pdtable", "filter": None,
                             "tracker": tracker, "fixer": rc.FIXERS[mk], "ext": rc.ext_tables(rows)})
-            pend.append(("stream", case, impl, None))
+            pend.append(("stream", case, impl, grid_to_json(rows) if use_text else None))
             # every table block alone, lenient model run of the same replacement values
             lk = "lenient" if mk == "strict" else mk
             for k, (g, st) in enumerate(zip(bad_grids, starts)):
@@ -933,8 +995,7 @@ def run_excel(path, fixer_kind, tracker, to, xrows):
                     snaps.append(None)
                 else:
                     prev = snaps[-1]["n_msgs"] if snaps and snaps[-1] and snaps[-1]["id"] == id(fx) else 0
-                    snaps.append({"errors": fx._errors, "warnings": fx._warnings, "n_msgs": len(fx.messages),
-                                  "new_msgs": list(fx.messages[prev:]), "id": id(fx)})
+                    snaps.append(dict(counters(fx), n_msgs=len(fx.messages), new_msgs=list(fx.messages[prev:]), id=id(fx)))
     except InputError as e:
         issue = e.args[0]
         loc = getattr(issue, "load_location", None)
@@ -983,7 +1044,7 @@ def workbook_case(seed, idx, out, model_ok, ops, pend, tmpdir):
         for _ in range(rng.choice([1, 2])):
             t = gen_table(rng, k, native=False)
             d = inject(rng, t, native=False)
-            d["short"] = {}                            # a worksheet pads short rows with empty cells
+            d["short"], d["tshort"] = {}, {}           # a worksheet pads short rows / lines with empty cells
             for key, v in list(d["illegal"].items()):  # and cannot hold a lone surrogate or an empty string
                 if isinstance(v, str) and (not v.strip() or has_surrogate([[v]])):
                     d["illegal"][key] = rng.choice(ILLEGAL[t["kinds"][key[1]]])
@@ -1026,6 +1087,11 @@ def workbook_case(seed, idx, out, model_ok, ops, pend, tmpdir):
         key = (sname, st)
         c = dict(case, sheet=sname, table=t["name"])
         defective = n_defects(t, d) > 0
+        if to != "cellgrid" and offset_clash(t, d, mk):
+            out.count("custom replacement without the column's UTC offset: located refusal or table accepted")
+            if key not in impl["tables"] and tracker == "raising" and [sname, st] in impl["issues"]:
+                stopped = True
+            continue
         if to == "cellgrid":
             if key not in impl["tables"]:
                 out.fail("a table block was not delivered as a cell grid", c, sorted(map(str, impl["tables"])), str(key),
@@ -1033,7 +1099,7 @@ def workbook_case(seed, idx, out, model_ok, ops, pend, tmpdir):
                 return
             val, snap = impl["tables"][key]
             want = grid_to_json(xrows[sname][st: st + len(build_grid(t, d))])
-            if val["grid"] != want or (snap is not None and snap["errors"] + snap["warnings"] != 0):
+            if val["grid"] != want or (snap is not None and snap["fixes"] != 0):
                 out.fail("a raw cell grid was altered or counted by the fixer", c, val["grid"], want, key="workbook:cellgrid")
                 return
             continue
@@ -1043,7 +1109,7 @@ def workbook_case(seed, idx, out, model_ok, ops, pend, tmpdir):
                          {"issues": impl["issues"]}, [sname, st], key="workbook:strict")
                 return
             entries = block_entries(impl["texts"][impl["issues"].index([sname, st])])
-            if entries is None or not expect_message_names_defects(entries, t, d, out, c):
+            if entries is None or not names_defects(entries, t, d, out, c):
                 if entries is None:
                     out.fail("a strict read failed with something else than the fixer's report", c,
                              impl["texts"][impl["issues"].index([sname, st])][:300], None, key="strict_not_report")
@@ -1075,6 +1141,102 @@ def workbook_case(seed, idx, out, model_ok, ops, pend, tmpdir):
             pend.append(("sheet", dict(case, sheet=sname), impl, sname))
 
 
+def offset_clash(tab, d, mk):
+    """a custom fixer's timestamp (tz-naive) put into a column whose timestamps carry a UTC offset: the frame cannot hold
+    both, the table is refused with a located error — assumed of a custom fixer's value: it fits the column"""
+    if mk != "custom" or not tab.get("offset_cols"):
+        return False
+    cells = set(effective_illegal(tab, d)) | set(padded_cells(tab, d))
+    return any(j in tab["offset_cols"] for (_, j) in cells)
+
+
+def judge_transposed_short(out, case, t, d, st, impl, delivered, strict, rep):
+    """value rows of a TRANSPOSED table cut short (a line shorter than the others), judged by the statement itself:
+    a strict read fails naming the short value rows; a lenient read counts at least one per short value row and the
+    cut-off cells hold a missing-value filler ('' / NaN for text, NaN, NaT or the replacement). The present reader
+    pads such lines silently (known finding F5): every deviation found here carries the key `transposed_short_line`."""
+    pads = padded_cells(t, d)
+    short_rows = sorted({i for i, _ in pads})
+    ill = effective_illegal(t, d)
+    dev, seen = None, None
+    if strict:
+        if st in delivered:
+            dev, seen = "a strict read delivered a transposed table whose value rows are cut short", "delivered"
+        elif st in impl["issues"]:
+            cands = block_entries(impl["issue_texts"][impl["issues"].index(st)]) or [[]]
+            named = any(all(any(_has_number(e, i) for e in entries) for i in short_rows) for entries in cands)
+            if not named:
+                dev, seen = "the strict failure message does not name the value rows cut short in a transposed table", \
+                    [e for c in cands[:1] for e in c][-4:]
+    elif st in delivered:
+        tv = delivered[st]["val"]["table"]
+        snap = impl["snaps"][impl["blocks"].index(delivered[st])]
+        for (i, j) in pads:
+            if j >= len(tv["columns"]) or i >= len(tv["columns"][j]["v"]):
+                continue
+            got, k = tv["columns"][j]["v"][i], t["kinds"][j]
+            ok = {"text": got in ("", "nan", "NaN"), "num": got == "nan", "datetime": got in ("NaT", rep["datetime"]),
+                  "onoff": got == rep["onoff"]}[k]
+            if not ok:
+                dev, seen = "a cut-off cell of a transposed table does not hold a missing-value filler", got
+                break
+        if dev is None and snap is not None and snap["fixes"] < len(ill) + len(d["dups"]) + len(short_rows):
+            dev, seen = "the fixer's counters do not include one per short value row of a transposed table", snap["fixes"]
+    if dev is not None:
+        out.count("known finding F5 (transposed short line) observed")
+        if out.dist["known finding F5 (transposed short line) observed"] <= 3:      # keep room for other failures
+            out.fail(dev, case, seen, {"short value rows": short_rows}, key="transposed_short_line")
+
+
+def f5_witness(out):
+    """the negation witness of `short_rows_counted_partial` for transposed tables (Props/C13.lean), replayed on the code"""
+    rows = [["**t*"], ["all"], ["a", "-", "1", "2", "3"], ["b", "text", "x"]]
+    impl = run_impl(rows=rows, fixer_kind="default", tracker="collecting")
+    out.evaluations += 1
+    delivered = {b["first"]: b for b in impl["blocks"] if b["ty"] == "TABLE"}
+    tab = {"name": "t", "names": ["a", "b"], "kinds": ["num", "text"], "units": ["-", "text"], "transposed": True,
+           "data": [["1", "x"], ["2", "x"], ["3", "x"]]}
+    d = {"illegal": {}, "dups": {}, "short": {}, "tshort": {1: 1}}
+    judge_transposed_short(out, {"stream": "f5-witness", "rows": grid_to_json(rows)}, tab, d, 0, impl, delivered, True, STOCK)
+
+
+def many_dups_case(out, model_ok, ops, pend):
+    """one header with 1003 columns of the same name (beyond the 1000 candidates the fixer once tried): strict read is
+    a located error naming the 1002 duplicates, lenient read delivers 1003 unique names"""
+    n = 1003
+    rows = [["**many"], ["all"], ["x"] * n, ["-"] * n, ["1"] * n]
+    tab = {"name": "many", "names": ["x"] * n, "kinds": ["num"] * n, "units": ["-"] * n, "transposed": False,
+           "data": [["1"] * n]}
+    d = {"illegal": {}, "dups": {j: "x" for j in range(1, n)}, "short": {}, "tshort": {}, "hdr": ["x"] * n}
+    case = {"stream": "many-duplicates", "rows": {"header": "1003 x 'x'"}}
+    for fk in ("default", "lenient"):
+        impl = run_impl(rows=rows, fixer_kind=fk, tracker="raising")
+        out.evaluations += 1
+        out.count("many duplicates:" + fk)
+        if isinstance(impl["ending"], dict) and "escaped" in impl["ending"]:
+            out.fail("an exception other than InputError escaped the reader", dict(case, fixer=fk), impl["ending"], None,
+                     key="escape:" + impl["ending"]["escaped"])
+            return
+        if fk == "default":
+            if impl["ending"] != {"InputError": 0}:
+                out.fail("a strict read of a header with 1003 equal names did not end in a located InputError",
+                         dict(case, fixer=fk), impl["ending"], {"InputError": 0}, key="many_duplicates:strict")
+                return
+            cands = block_entries(impl["issue_texts"][0]) or [[]]
+            if not names_defects(cands, tab, d, out, dict(case, fixer=fk)):
+                return
+        else:
+            names = impl["blocks"][0]["val"]["table"]["names"] if impl["blocks"] else []
+            if impl["ending"] != "exhausted" or len(names) != n or len(set(names)) != n or names[0] != "x":
+                out.fail("a lenient read of a header with 1003 equal names did not deliver 1003 unique names",
+                         dict(case, fixer=fk), {"ending": impl["ending"], "names": len(names), "unique": len(set(names))},
+                         n, key="many_duplicates:lenient")
+                return
+    if model_ok:
+        ops.append(rc.model_op("make_table", rows, "lenient"))
+        pend.append(("direct", dict(case, fixer="lenient"), {"ok": run_impl(rows=rows, fixer_kind="lenient")["blocks"][0]["val"]["table"]}, None))
+
+
 def direct_case(seed, idx, out, model_ok, ops, pend):
     """the entry points that take NO fixer argument, called repeatedly in one process: make_table(cells) and
     json_data_to_table(json). Sequences defective -> clean and clean -> defective -> clean (and random ones); the
@@ -1088,6 +1250,7 @@ def direct_case(seed, idx, out, model_ok, ops, pend):
         for _ in range(20):
             tab = gen_table(rng, step, native=False, allow_transposed=(entry == "make_table"))
             d = inject(rng, tab, native=False, p_defect=1.0 if want_defect else 0.0)
+            d["tshort"] = {}
             if entry == "json_data_to_table":
                 d["dups"], d["short"], d["tshort"] = {}, {}, {}
                 d.pop("hdr", None)
@@ -1132,7 +1295,7 @@ def direct_case(seed, idx, out, model_ok, ops, pend):
                 out.fail("a default call failed with something else than the fixer's report", case, impl["text"][:300], None,
                          key="strict_not_report")
                 return
-            if not expect_message_names_defects(entries, tab, d, out, case, what="the error message of this call"):
+            if not names_defects(entries, tab, d, out, case, what="the error message of this call"):
                 return
         else:
             if "exc" in impl:
@@ -1228,8 +1391,9 @@ def run(tier, seed, model_ok, translator, search=False):
                 "Non-trivial: at least one defect injected; distinct by stream content + configuration. Case i is "
                 "generated from (seed, i) alone.")
     thorough = tier == "thorough"
-    n_streams = 14000 if thorough else (3000 if search else 1500)
+    n_streams = 12000 if thorough else (3000 if search else 1000)
     ops, pend = [], []
+    f5_witness(out)
     for idx in range(n_streams):
         one_case(seed, idx, out, model_ok, ops, pend)
     # defect injection into LONG tables: a ladder of row counts (always one above each of 1024, 4096, 8192)
@@ -1238,6 +1402,7 @@ def run(tier, seed, model_ok, translator, search=False):
     for n in ladder:
         for rep_i in range(5 if thorough else (5 if n <= 300 else 3 if n <= 1100 else 1)):
             one_case(seed, rep_i, out, model_ok, ops, pend, n_long=n)
+    many_dups_case(out, model_ok, ops, pend)
     for idx in range(600 if thorough else 120):
         direct_case(seed, idx, out, model_ok, ops, pend)
     for idx in range(300 if thorough else 60):
@@ -1298,10 +1463,12 @@ def run(tier, seed, model_ok, translator, search=False):
                     out.mismatch("stream: pdtable vs Lean parseBlocks", case, got, want)
                     continue
                 no_fail = not impl["issues"] and impl["ending"] == "exhausted"
-                if no_fail and impl["fixer"] is not None and ans.get("fixer") != impl["fixer"]:
+                if no_fail and impl["fixer"] is not None and not same_fixer(impl["fixer"], ans.get("fixer")):
                     out.mismatch("fixer left behind by the stream: pdtable vs Lean", case, impl["fixer"], ans.get("fixer"))
-                if case["api"] == "read_csv" and ans.get("rows") != case["rows"]:
-                    out.mismatch("read_csv rows: pdtable vs Lean readCsvRows", case, case["rows"], ans.get("rows"))
+                if case["api"] == "read_csv" and extra is not None and ans.get("rows") != extra:
+                    out.mismatch("read_csv rows: pdtable vs Lean readCsvRows", case,
+                                 extra if len(extra) < 60 else {"n_rows": len(extra)},
+                                 ans.get("rows") if len(extra) < 60 else {"n_rows": len(ans.get("rows") or [])})
                 continue
             k, st, strict, has_def = extra
             delivered = {b["first"]: (i, b) for i, b in enumerate(impl["blocks"]) if b["ty"] == "TABLE"}
@@ -1317,7 +1484,7 @@ def run(tier, seed, model_ok, translator, search=False):
                     out.mismatch("block alone (isolation bridge): table differs", case, b["val"]["table"], m)
                     continue
                 snap = impl["snaps"][i]
-                if snap is not None and (snap["errors"], snap["warnings"]) != (mfix["errors"], mfix["warnings"]):
+                if snap is not None and not same_fixer({k: snap[k] for k in ("fixes", "errors", "warnings")}, mfix):
                     out.mismatch("block alone (isolation bridge): counters differ", case, snap, mfix)
             elif strict and has_def and st in impl["issues"]:
                 # strict_eq_lenient: the failure is report(); its messages are the lenient run's messages
@@ -1367,6 +1534,10 @@ def replay(rep):
             shutil.rmtree(tmpdir, ignore_errors=True)
     else:
         one_case(seed, int(inp["index"]), o, False, [], [])
-    if o.failures:
-        return False, o.failures[0]["what"]
-    return True, "property holds on this input (case regenerated from seed and index)"
+    # the open known finding F5 shows on every stream with a short transposed line: it is not what an entry replays
+    # unless the entry is about it
+    about_f5 = "transposed" in str(rep.get("what", ""))
+    fails = [f for f in o.failures if about_f5 or f["key"] != "transposed_short_line"]
+    if fails:
+        return False, fails[0]["what"]
+    return True, "property holds on this input"
